@@ -1704,8 +1704,8 @@ class C14(Base):
                 if ok:
                     self.fail("C14.integrity", "test_integrity() is False although every bar but the last is full", **feats)
             tw = self._twin(t)
-            if not (t.obj == tw):
-                self.fail("C14.protocol", "a track rebuilt from the same items does not compare equal", which="track_eq", **feats)
+            if not (t.obj == tw) or (t.obj != tw):
+                self.fail("C14.protocol", "a track rebuilt from the same items does not compare equal (== %s, != %s)" % (t.obj == tw, t.obj != tw), which="track_eq", **feats)
             if len(self.lib_seq(t)):
                 tw2 = self._twin(t)
                 last = [b for b in tw2.bars if b.bar][-1]
@@ -1725,13 +1725,13 @@ class C14(Base):
                 for x in c["tracks"]:
                     c2.add_track(self._twin(x))
                 self.probes["composition_equality_checked"] += 1
-                if not (c["obj"] == c2):
-                    self.fail("C14.protocol", "a composition rebuilt from the same tracks does not compare equal", which="comp_eq", **feats)
+                if not (c["obj"] == c2) or (c["obj"] != c2):
+                    self.fail("C14.protocol", "a composition rebuilt from the same tracks does not compare equal (== %s, != %s)" % (c["obj"] == c2, c["obj"] != c2), which="comp_eq", **feats)
                 c3 = Composition()
                 for x in c["tracks"]:
                     c3.add_track(self._twin(x))
                 c3.add_track(self._twin(t))
-                if c["obj"] == c3:
+                if c["obj"] == c3 or not (c["obj"] != c3):
                     self.fail("C14.protocol", "compositions with different contents compare equal", which="comp_neq", **feats)
         except Exception as e:
             self.fail("C14.protocol", "protocol query raised %s: %s" % (type(e).__name__, e), which="raised", **feats)
